@@ -67,6 +67,12 @@ Section enfold.
     destruct (get_all K V (e_cache K V st) limit offset) as [[|p l]|e]; cbn; try reflexivity.
     destruct (get_all K V (e_backend K V st) limit offset); reflexivity.
   Qed.
+
+  Lemma enfold_find_eq bfind st : enfold_find_g K V bfind st = Ok (enfold_find K V bfind st).
+  Proof.
+    unfold enfold_find_g, enfold_find. cbn [seqc ef_result]. destruct (e_cache K V st); reflexivity.
+  Qed.
 End enfold.
+Print Assumptions enfold_find_eq.
 Print Assumptions enfold_add_eq.
 Print Assumptions enfold_get_all_eq.
